@@ -549,6 +549,9 @@ func (x *Exec) allocRef(st *St, ty types.Type, hint string) *Term {
 	// zero value of those library types is their initial state
 	if _, ok := ty.(*types.Named); ok {
 		prefix := x.W.StructKey(ty) + "."
+		if prefix == "sync.WaitGroup." {
+			st.wgs = append(st.wgs, r)
+		}
 		for _, k := range x.W.FieldOrder {
 			f := x.W.Fields[k]
 			if f == nil || !f.Ghost || !strings.HasPrefix(k, prefix) {
